@@ -61,7 +61,7 @@ Definition dom_ok (c : arr Q * Q * list bool) : bool :=
   let '(P, tol, rs) := c in
   let nopp := (length (shape P) - 1)%nat in
   all2 (fun a r => if (nopp =? 0)%nat then Bool.eqb (is_dominated_0 P a tol) r
-                   else implb (dominated_by_pure P a tol) r && implb (never_worse_somewhere P a tol) (negb r))
+                   else implb (dominated_by_pure P a (tol + (1 # 100000000))) r && implb (never_worse_somewhere P a (tol - (1 # 100000000))) (negb r))
        (seq 0 (hd 0%nat (shape P))) rs.
 """
 
@@ -860,8 +860,8 @@ def run(ctx):
         pl = Player(P)
         for tolv in TOLS:
             tq = tolq(tolv)
-            if marg != tq and abs(marg - tq) < Fraction(1, 10**12):
-                ctx.count("near_margin:borderline (skipped)")
+            if abs(marg - tq) <= Fraction(1, 10**9) * Fraction(1, 10):
+                ctx.count("near_margin:threshold-tie (skipped)")
                 continue
             exp0 = marg > tq
             for method in (None, "highs"):
@@ -932,6 +932,8 @@ def run(ctx):
                 for a in range(shp[0]):
                     verdict = dominated_oracle(P, a, tq)
                     ctx.count("dominated:%s" % verdict)
+                    if verdict == "threshold-tie":
+                        continue
                     if verdict is not None and verdict != rs[a]:
                         ctx.fail("is_dominated", "is_dominated differs from the definition (exists a mixed action doing better by more than tol against every opponent profile)",
                                  {"payoff_array": P, "action": a, "tol": tolv, "method": method}, rs[a], verdict)
@@ -1465,7 +1467,10 @@ def dominated_oracle(P, a, tol):
     P = np.asarray(P)
     n = P.shape[0]
     if P.ndim == 1:
-        return bool(max(frac(x) for x in P.tolist()) > frac(P[a]) + tol)
+        gap = max(frac(x) for x in P.tolist()) - frac(P[a]) - tol
+        if gap != 0 and abs(gap) <= Fraction(1, 10**9) * (1 + max(abs(frac(x)) for x in P.tolist())):   # gap == 0: one exact float addition, no rounding
+            return "threshold-tie"
+        return bool(gap > 0)
     if n == 1:
         return False
     M = P.reshape(n, -1)
@@ -1495,6 +1500,11 @@ def dominated_oracle(P, a, tol):
                 if sum(cand) == 1:
                     v = max(sum(D[k][j] * cand[j] for j in range(w)) for k in range(m))
                     hi = v if hi is None else min(hi, v)
+    # threshold tie: the exact value of the difference game is within 1e-9 (relative to the payoff scale) of tol; the
+    # floating-point value returned by minmax / linprog may fall on either side: not judged
+    eps = Fraction(1, 10**9) * (1 + max(abs(frac(x)) for x in P.ravel().tolist()))
+    if (lo is not None and abs(lo - tol) <= eps) or (hi is not None and abs(hi - tol) <= eps):
+        return "threshold-tie"
     if lo is not None and lo > tol:
         return True
     if hi is not None and hi <= tol:
